@@ -1617,6 +1617,16 @@ impl Op {
             Op::Pow => {
                 let x = x.expand(width, signed);
 
+                // An x/z exponent makes the whole result x (LRM 11.4.3); test it
+                // before the sign shortcut below, which reads the payload MSB
+                // (1 for z) as "negative".
+                if y.is_xz() {
+                    return match x.as_ref() {
+                        Value::U64(_) => Value::U64(ValueU64::new_x(width, false)),
+                        Value::BigUint(_) => Value::BigUint(ValueBigUint::new_x(width, false)),
+                    };
+                }
+
                 // IEEE 1800 11.4.3.1 (power operator rules): a negative exponent yields 0 / 1 / ±1 / x by
                 // the base value; `to_usize` would reinterpret it as a huge
                 // unsigned magnitude and compute modular-inverse garbage.
